@@ -261,6 +261,58 @@ int main(int argc, char** argv) {
             {"transitions"});
   }
 
+  // ---------- phase lattice-xf: a lazily built intermediate result is TRANSLATED before it is used again:
+  // ((A o1 B) o2 C).Translate(t) o3 D  over boxes of [0,2]^3, t in {0,1}^3 \ {0}: exercises the evaluator's
+  // transform push-down / flattening on lattice data (voxel model on the 3x3x3 grid)
+  {
+    const int N = 3;
+    auto boxes = allBoxes(2);
+    const int nb = (int)boxes.size();
+    std::vector<int> cs, ds;  // quick: C and D from the 8 unit cubes; thorough: all boxes
+    for (int i = 0; i < nb; ++i) {
+      const LBox& b = boxes[i];
+      bool unit = b.hi[0] - b.lo[0] == 1 && b.hi[1] - b.lo[1] == 1 && b.hi[2] - b.lo[2] == 1;
+      if (thorough || unit) {
+        cs.push_back(i);
+        ds.push_back(i);
+      }
+    }
+    static const int TS[3][3] = {{0, 0, 1}, {1, 1, 0}, {1, 1, 1}};
+    const int nt = thorough ? 3 : 2;
+    std::vector<int> radix = {nb, nb, (int)cs.size(), (int)ds.size(), 27, nt, 2};
+    R.phase("lattice-xf", product(radix), 54,
+            [&](uint64_t idx, Ctx& c) {
+              auto d = digits(idx, radix);
+              const LBox &A = boxes[d[0]], &B = boxes[d[1]], &C = boxes[cs[d[2]]], &D = boxes[ds[d[3]]];
+              OpType o1 = OPS[d[4] % 3], o2 = OPS[(d[4] / 3) % 3], o3 = OPS[d[4] / 9];
+              const int* t = TS[d[5]];
+              bool forced = d[6];
+              auto shifted = [&](LBox b) {
+                for (int k = 0; k < 3; ++k) {
+                  b.lo[k] += t[k];
+                  b.hi[k] += t[k];
+                }
+                return b;
+              };
+              std::string tn = std::string("T") + char('0' + t[0]) + char('0' + t[1]) + char('0' + t[2]);
+              std::string prog = "((" + A.str() + opName(o1) + B.str() + ")" + opName(o2) + C.str() + ")" + (forced ? "!" : "") + "." + tn + opName(o3) + D.str();
+              c.describe(prog);
+              Manifold in = boxManifold(A).Boolean(boxManifold(B), o1).Boolean(boxManifold(C), o2);
+              if (forced) (void)in.NumTri();
+              Manifold r = in.Translate({double(t[0]), double(t[1]), double(t[2])}).Boolean(boxManifold(D), o3);
+              uint64_t m = voxOp(voxOp(voxMask(shifted(A), N), voxMask(shifted(B), N), o1), voxMask(shifted(C), N), o2);
+              uint64_t want = voxOp(m, voxMask(D, N), o3);
+              std::string why = judgeLattice(r, want, N);
+              c.count("transitions", 4);
+              uint64_t h = mix64(want) ^ canonGeomHash(r.GetMeshGL64());
+              c.distinct(h);
+              if (want != 0 && want != m) c.nontrivial(h);
+              if (!why.empty()) c.viol("lattice:" + prog, prog, why);
+              if (idx % 500009 == 0) c.sample(prog);
+            },
+            {"transitions"}, 23);
+  }
+
   // ---------- phase lattice-bfs: breadth-first over (voxel set, canonical mesh) states:
   // every result mesh reached is re-used as an operand against every box, so the
   // same solid is tried under every triangulation the library produces for it.
@@ -522,12 +574,25 @@ int main(int argc, char** argv) {
     // SplitByPlane / TrimByPlane with 12 generic planes per leaf
     static const double NRM[4][3] = {{0.3, 0.5, 0.81}, {-0.7, 0.2, 0.1}, {0.05, -0.9, 0.4}, {1, 0.01, -0.02}};
     static const double OFF[3] = {-0.21, 0.07, 0.33};
-    R.phase("gp-planes", nl * 12, 12,
+    // every leaf also far from the origin with the plane on either side of it (the half-space cutter is sized from
+    // the bounding box and the plane offset)
+    std::vector<Leaf> LP = L;
+    for (size_t i = 0; i < L.size(); i += 5) {
+      Leaf f;
+      f.name = L[i].name + ".far";
+      f.m = L[i].m.Translate({4.0, -3.0, 2.5});
+      f.soup = soupOf(f.m);
+      f.vol = f.m.Volume();
+      LP.push_back(f);
+    }
+    static const double OFFFAR[3] = {-4.1, 0.2, 3.9};
+    R.phase("gp-planes", LP.size() * 12, 12,
             [&](uint64_t idx, Ctx& c) {
-              const Leaf& A = L[idx / 12];
+              const Leaf& A = LP[idx / 12];
               int k = idx % 12;
               vec3 n(NRM[k / 3][0], NRM[k / 3][1], NRM[k / 3][2]);
-              double off = OFF[k % 3];
+              const bool far = idx / 12 >= L.size();
+              double off = far ? OFFFAR[k % 3] : OFF[k % 3];
               std::ostringstream ps;
               ps << "SplitByPlane(" << A.name << ", n" << k / 3 << ", " << off << ")";
               std::string prog = ps.str();
